@@ -17,13 +17,13 @@ def SnapCreated (inp : RunInput) (s : Sys) (n : Name) (nd : Node) : Prop :=
 def Registered (s : Sys) (w d : Name) : Prop :=
   ∃ x, s.nodes d = some x ∧ w ∈ x.waitingMe ∧ (x.status.finished = false ∨ d ∈ s.dispatched)
 
-structure InvE (inp : RunInput) (s : Sys) : Prop where
+structure InvE9 (inp : RunInput) (s : Sys) : Prop where
   nw : ∀ n nd, s.nodes n = some nd → nd.waitSelect = false
   w : ∀ w ∈ s.waiting, ∃ nd, s.nodes w = some nd ∧ (nd.waitRun ≠ [] ∨ nd.waitRunCalc ≠ [])
   sc : ∀ n nd, s.nodes n = some nd → SnapCreated inp s n nd
   e : s.susp ≠ some .crash → ∀ w nd d, s.nodes w = some nd → (d ∈ nd.waitRun ∨ d ∈ nd.waitRunCalc) → Registered s w d
 
-theorem init_invE (inp : RunInput) : InvE inp (init inp) := by
+theorem init_invE9 (inp : RunInput) : InvE9 inp (init inp) := by
   refine ⟨?_, ?_, ?_, ?_⟩
   · intro n nd h; simp [init] at h
   · intro w h; simp [init] at h
@@ -49,11 +49,11 @@ structure SameW (a b : Node) : Prop where
 
 /-- replace the node of `n` by one with the same wait data (another position of its generator); queues may change
     in the ways `node.step()` changes them -/
-theorem invE_setSame {s s' : Sys} {n : Name} {nd x : Node} (h : InvE inp s) (hn : s.nodes n = some nd)
+theorem invE_setSame {s s' : Sys} {n : Name} {nd x : Node} (h : InvE9 inp s) (hn : s.nodes n = some nd)
     (hx : SameW nd x) (hsc : SnapCreated inp s' n x)
     (hnodes : ∀ k, s'.nodes k = if k = n then some x else s.nodes k)
     (hw : ∀ k ∈ s'.waiting, k ∈ s.waiting ∨ (k = n ∧ (x.waitRun ≠ [] ∨ x.waitRunCalc ≠ [])))
-    (hd : ∀ k ∈ s.dispatched, k ∈ s'.dispatched) (hsu : s.susp ≠ some .crash) : InvE inp s' := by
+    (hd : ∀ k ∈ s.dispatched, k ∈ s'.dispatched) (hsu : s.susp ≠ some .crash) : InvE9 inp s' := by
   have keeps : Keeps s s' := by
     intro d ⟨y, hy⟩
     show ∃ z, s'.nodes d = some z
@@ -103,8 +103,8 @@ theorem invE_setSame {s s' : Sys} {n : Name} {nd x : Node} (h : InvE inp s) (hn 
       · exact Or.inr (hd d a)
 
 /-- nodes and `waiting` untouched, `dispatched` only grows -/
-theorem InvE.congr {s s' : Sys} (h : InvE inp s) (e1 : s'.nodes = s.nodes) (e2 : s'.waiting = s.waiting)
-    (hd : ∀ k ∈ s.dispatched, k ∈ s'.dispatched) (hsu : s.susp ≠ some .crash) : InvE inp s' := by
+theorem InvE9.congr {s s' : Sys} (h : InvE9 inp s) (e1 : s'.nodes = s.nodes) (e2 : s'.waiting = s.waiting)
+    (hd : ∀ k ∈ s.dispatched, k ∈ s'.dispatched) (hsu : s.susp ≠ some .crash) : InvE9 inp s' := by
   have keeps : Keeps s s' := Keeps.of_eq e1
   refine ⟨?_, ?_, ?_, ?_⟩
   · intro k y hk; rw [e1] at hk; exact h.nw k y hk
@@ -119,10 +119,10 @@ theorem InvE.congr {s s' : Sys} (h : InvE inp s) (e1 : s'.nodes = s.nodes) (e2 :
     · exact Or.inr (hd d a)
 
 /-- a new node (`ExecNode(task, parent)`) appears -/
-theorem invE_create {s s' : Sys} {t : Name} (anc : List Name) (h : InvE inp s) (ht : s.nodes t = none)
+theorem invE_create {s s' : Sys} {t : Name} (anc : List Name) (h : InvE9 inp s) (ht : s.nodes t = none)
     (hnodes : ∀ k, s'.nodes k = if k = t then some (mkNode inp t anc) else s.nodes k)
     (hw : ∀ k ∈ s'.waiting, k ∈ s.waiting) (hd : ∀ k ∈ s.dispatched, k ∈ s'.dispatched)
-    (hsu : s.susp ≠ some .crash) : InvE inp s' := by
+    (hsu : s.susp ≠ some .crash) : InvE9 inp s' := by
   have keeps : Keeps s s' := by
     intro d ⟨y, hy⟩
     show ∃ z, s'.nodes d = some z
@@ -161,17 +161,17 @@ theorem invE_create {s s' : Sys} {t : Name} (anc : List Name) (h : InvE inp s) (
 theorem sameW_pc (nd : Node) (pc' : PC) : SameW nd { nd with pc := pc' } := ⟨rfl, rfl, rfl, rfl, rfl⟩
 
 /-- `yield self._gen_node(node = n, d)` -/
-theorem invE_genStep {s : Sys} {n : Name} {nd : Node} (d : Name) (pc' : PC) (h : InvE inp s)
+theorem invE_genStep {s : Sys} {n : Name} {nd : Node} (d : Name) (pc' : PC) (h : InvE9 inp s)
     (hn : s.nodes n = some nd) (hsu : s.susp = none)
     (hsc : ∀ s', Keeps s s' → created s' d → SnapCreated inp s' n { nd with pc := pc' }) :
-    InvE inp (genStep inp s n nd d pc') := by
+    InvE9 inp (genStep inp s n nd d pc') := by
   have hcr : s.susp ≠ some .crash := by rw [hsu]; simp
   unfold genStep
   cases hdn : s.nodes d with
   | none =>
     simp only []
     have hne : n ≠ d := by intro e; subst e; rw [hn] at hdn; cases hdn
-    have h1 : InvE inp (setNode s d (mkNode inp d (nd.anc ++ [d]))) :=
+    have h1 : InvE9 inp (setNode s d (mkNode inp d (nd.anc ++ [d]))) :=
       invE_create (nd.anc ++ [d]) h hdn (fun k => rfl) (fun k a => a) (fun k a => a) hcr
     have hn1 : (setNode s d (mkNode inp d (nd.anc ++ [d]))).nodes n = some nd := by simp [hne, hn]
     refine invE_setSame h1 hn1 (sameW_pc nd pc') ?_ (fun k => rfl) (fun k a => Or.inl a) (fun k a => a)
@@ -248,11 +248,11 @@ theorem waitNode_wait (inp : RunInput) (s : Sys) (nd : Node) (ds : List Name) (c
     · simp [waitNode, addWaits, g.waitingMe]
 
 /-- `_node_add_wait_run(node = n, ds, calc)` when every member of `ds` has a node -/
-theorem invE_addWaitRun {s : Sys} {n : Name} {nd : Node} (ds : List Name) (c : Bool) (pc' : PC) (h : InvE inp s)
+theorem invE_addWaitRun {s : Sys} {n : Name} {nd : Node} (ds : List Name) (c : Bool) (pc' : PC) (h : InvE9 inp s)
     (hn : s.nodes n = some nd) (hsu : s.susp = none) (hnw : n ∉ s.waiting) (hcre : ∀ d ∈ ds, created s d)
     (hsc : ∀ s' x, Keeps s s' → x.pc = pc' → x.snapTask = nd.snapTask → x.snapCalc = nd.snapCalc →
       SnapCreated inp s' n x) :
-    InvE inp (addWaitRun inp s n nd ds c pc') := by
+    InvE9 inp (addWaitRun inp s n nd ds c pc') := by
   have hcr : s.susp ≠ some .crash := by rw [hsu]; simp
   obtain ⟨w1, w2, w3, w4, w5⟩ := waitNode_wait inp s nd ds c pc'
   have wf := waitNode_facts inp s nd ds c pc'
@@ -503,12 +503,12 @@ theorem updateWaiting_relW (inp : RunInput) (pst : RS) (p : Name) :
           exact ⟨fun a => this.1 (b7 p a), fun a => this.2 (b8 p a)⟩
         · exact g2 k e y' hy'
 
-theorem InvE.rpc {s : Sys} (h : InvE inp s) (r : RPC) : InvE inp { s with rpc := r } :=
+theorem InvE9.rpc {s : Sys} (h : InvE9 inp s) (r : RPC) : InvE9 inp { s with rpc := r } :=
   ⟨h.nw, h.w, h.sc, h.e⟩
 
 /-- the generator crashed: only the structural part of the invariant is claimed -/
-theorem InvE.crashed {s s' : Sys} (h : InvE inp s) (e1 : s'.nodes = s.nodes) (e2 : s'.waiting = s.waiting)
-    (e3 : s'.susp = some .crash) : InvE inp s' := by
+theorem InvE9.crashed {s s' : Sys} (h : InvE9 inp s) (e1 : s'.nodes = s.nodes) (e2 : s'.waiting = s.waiting)
+    (e3 : s'.susp = some .crash) : InvE9 inp s' := by
   refine ⟨?_, ?_, ?_, fun a => absurd e3 a⟩
   · intro k y hk; rw [e1] at hk; exact h.nw k y hk
   · intro k hk; rw [e2] at hk; rw [e1]; exact h.w k hk
@@ -518,8 +518,8 @@ theorem sendHead_eq (s : Sys) (p : Name) (nd : Node) (h : nd.waitSelect = false)
     sendHead s p nd = { s with dispatched := s.dispatched.filter (· ≠ p) } := by
   unfold sendHead; simp [h]
 
-theorem invE_send {s s0 : Sys} {node : Option Name} {perm : List Name} (h : InvE inp s)
-    (hcr : s.susp ≠ some .crash) (hs : send inp s node perm = some s0) : InvE inp s0 := by
+theorem invE_send {s s0 : Sys} {node : Option Name} {perm : List Name} (h : InvE9 inp s)
+    (hcr : s.susp ≠ some .crash) (hs : send inp s node perm = some s0) : InvE9 inp s0 := by
   unfold send at hs
   cases node with
   | none =>
@@ -534,7 +534,7 @@ theorem invE_send {s s0 : Sys} {node : Option Name} {perm : List Name} (h : InvE
       have hws := h.nw p nd hn
       have hsh := sendHead_eq s p nd hws
       -- the state after the head of `_update_waiting`
-      have h1 : InvE inp (sendHead s p nd) ∨ nd.status ≠ .run := by
+      have h1 : InvE9 inp (sendHead s p nd) ∨ nd.status ≠ .run := by
         by_cases hr : nd.status = .run
         · left
           rw [hsh]
@@ -620,8 +620,8 @@ theorem invE_send {s s0 : Sys} {node : Option Name} {perm : List Name} (h : InvE
           · cases hs
 
 /-- nodes, `waiting`, `dispatched`, `susp` untouched -/
-theorem InvE.frame {s s' : Sys} (h : InvE inp s) (e1 : s'.nodes = s.nodes) (e2 : s'.waiting = s.waiting)
-    (e3 : s'.dispatched = s.dispatched) (e4 : s'.susp = s.susp) : InvE inp s' := by
+theorem InvE9.frame {s s' : Sys} (h : InvE9 inp s) (e1 : s'.nodes = s.nodes) (e2 : s'.waiting = s.waiting)
+    (e3 : s'.dispatched = s.dispatched) (e4 : s'.susp = s.susp) : InvE9 inp s' := by
   refine ⟨?_, ?_, ?_, ?_⟩
   · intro k y hk; rw [e1] at hk; exact h.nw k y hk
   · intro k hk; rw [e2] at hk; rw [e1]; exact h.w k hk
@@ -632,9 +632,9 @@ theorem InvE.frame {s s' : Sys} (h : InvE inp s) (e1 : s'.nodes = s.nodes) (e2 :
     exact ⟨z, by rw [e1]; exact hz, hz1, by rw [e3]; exact hz2⟩
 
 /-- the runner sets the status of a node that is out at the runner -/
-theorem invE_status {s s' : Sys} {n : Name} {nd : Node} (st' : RS) (h : InvE inp s) (hn : s.nodes n = some nd)
+theorem invE_status {s s' : Sys} {n : Name} {nd : Node} (st' : RS) (h : InvE9 inp s) (hn : s.nodes n = some nd)
     (hdn : n ∈ s.dispatched) (e1 : s'.nodes = (setNode s n { nd with status := st' }).nodes)
-    (e2 : s'.waiting = s.waiting) (e3 : s'.dispatched = s.dispatched) (e4 : s'.susp = s.susp) : InvE inp s' := by
+    (e2 : s'.waiting = s.waiting) (e3 : s'.dispatched = s.dispatched) (e4 : s'.susp = s.susp) : InvE9 inp s' := by
   have hnodes : ∀ k, s'.nodes k = if k = n then some { nd with status := st' } else s.nodes k := by
     intro k; rw [e1]; rfl
   have keeps : Keeps s s' := by
@@ -675,14 +675,14 @@ theorem invE_status {s s' : Sys} {n : Name} {nd : Node} (st' : RS) (h : InvE inp
     · exact ⟨z, by rw [hnodes]; simp [e, hz], hz1, by rw [e3]; exact hz2⟩
 
 /-- one step of `node.step()` for the current node -/
-theorem nodeStep_invE {s s' : Sys} {n : Name} {nd : Node} {perm : List Name} (h : InvE inp s)
+theorem nodeStep_invE {s s' : Sys} {n : Name} {nd : Node} {perm : List Name} (h : InvE9 inp s)
     (hn : s.nodes n = some nd) (hsu : s.susp = none) (hnw : n ∉ s.waiting)
     (ha4 : nd.pc.yielded1 = true → nd.status ≠ .none)
-    (hs : nodeStep inp s n nd perm = some s') : InvE inp s' := by
+    (hs : nodeStep inp s n nd perm = some s') : InvE9 inp s' := by
   have hcr : s.susp ≠ some .crash := by rw [hsu]; simp
   have hsc := h.sc n nd hn
   have plain : ∀ (pc' : PC), SnapCreated inp (setNode s n { nd with pc := pc' }) n { nd with pc := pc' } →
-      InvE inp (setNode s n { nd with pc := pc' }) := fun pc' c =>
+      InvE9 inp (setNode s n { nd with pc := pc' }) := fun pc' c =>
     invE_setSame h hn (sameW_pc nd pc') c (fun k => rfl) (fun k a => Or.inl a) (fun k a => a) hcr
   unfold nodeStep at hs
   cases hpc : nd.pc with
@@ -813,9 +813,9 @@ theorem nodeStep_invE {s s' : Sys} {n : Name} {nd : Node} {perm : List Name} (h 
   | afterSelf2 => simp only [hpc] at hs; cases hs; exact plain _ trivial
   | done => simp only [hpc] at hs; cases hs; exact h.congr rfl rfl (fun k a => a) hcr
 
-theorem dtick_invE {s s' : Sys} {perm : List Name} (h : InvE inp s) (hsu : s.susp = none) (h1 : Inv1 inp s)
+theorem dtick_invE {s s' : Sys} {perm : List Name} (h : InvE9 inp s) (hsu : s.susp = none) (h1 : Inv1 inp s)
     (ha4 : ∀ n nd, s.nodes n = some nd → nd.pc.yielded1 = true → nd.status ≠ .none)
-    (hs : dtick inp s perm = some s') : InvE inp s' := by
+    (hs : dtick inp s perm = some s') : InvE9 inp s' := by
   have hcr : s.susp ≠ some .crash := by rw [hsu]; simp
   unfold dtick at hs
   cases hc : s.cur with
@@ -843,8 +843,8 @@ theorem dtick_invE {s s' : Sys} {perm : List Name} (h : InvE inp s) (hsu : s.sus
 
 /-! ### the runner side: the steps of the two systems -/
 
-theorem serialStep_invE {s s' : Sys} {perm : List Name} (h : InvE inp s) (hC : InvC s) (hF : InvF s) (hS : InvS s)
-    (hL : InvL inp s) (h1 : Inv1 inp s) (hs : serialStep inp s perm = some s') : InvE inp s' := by
+theorem serialStep_invE {s s' : Sys} {perm : List Name} (h : InvE9 inp s) (hC : InvC s) (hF : InvF s) (hS : InvS s)
+    (hL : InvL inp s) (h1 : Inv1 inp s) (hs : serialStep inp s perm = some s') : InvE9 inp s' := by
   unfold serialStep at hs
   cases hr : s.rpc with
   | sTop node =>
@@ -881,7 +881,7 @@ theorem serialStep_invE {s s' : Sys} {perm : List Name} (h : InvE inp s) (hC : I
           have hdn : n ∈ s.dispatched := hC.ds n hsu
           have key : ∀ (d : Sel) (hd : d ≠ .assertFail) (s2 : Sys), s2.nodes = (applySel inp s n nd d).nodes →
               s2.waiting = (applySel inp s n nd d).waiting → s2.dispatched = (applySel inp s n nd d).dispatched →
-              s2.susp = (applySel inp s n nd d).susp → InvE inp s2 := by
+              s2.susp = (applySel inp s n nd d).susp → InvE9 inp s2 := by
             intro d hd s2 e1 e2 e3 e4
             obtain ⟨_, f2, _, f4, _⟩ := applySel_frame inp s n nd d
             exact invE_status (selStatus d) h hn hdn (e1.trans (applySel_nodes inp s n nd d hd)) (e2.trans f2)
@@ -918,9 +918,9 @@ theorem serialStep_invE {s s' : Sys} {perm : List Name} (h : InvE inp s) (hC : I
   | pJoin => simp only [hr] at hs; cases hs
   | halted => simp only [hr] at hs; cases hs
 
-theorem reach_invE {s : Sys} (hser : inp.runner = .serial) (h : Reach inp s) : InvE inp s := by
+theorem reach_invE {s : Sys} (hser : inp.runner = .serial) (h : Reach inp s) : InvE9 inp s := by
   induction h with
-  | init => exact init_invE inp
+  | init => exact init_invE9 inp
   | @next s0 s1 c hp hs ih =>
     cases c with
     | main perm =>
@@ -934,7 +934,7 @@ theorem reach_invE {s : Sys} (hser : inp.runner = .serial) (h : Reach inp s) : I
 /-- in the state in which `_check_deadlock` would raise (nothing current, ready or dispatched), every parked node
     awaits a parked node; with a ranked dependency graph nothing can be parked then -/
 theorem no_deadlock_shape {rank : Name → Nat} {s : Sys} (hrk : Ranked inp rank) (hN : AllN inp rank s)
-    (hE : InvE inp s) (hD : InvD inp s) (hsu : s.susp = none) (hc : s.cur = none) (hrd : s.ready = [])
+    (hE : InvE9 inp s) (hD : InvD inp s) (hsu : s.susp = none) (hc : s.cur = none) (hrd : s.ready = [])
     (hdp : s.dispatched = [])
     (hnone : ∀ n nd, s.nodes n = some nd → nd.pc.yielded1 = true → nd.status ≠ .none)
     (hrun : ∀ n nd, s.nodes n = some nd → nd.status = .run → nd.pc.inSetup = true) : s.waiting = [] := by
